@@ -55,8 +55,9 @@ def spans_of(case):
             spans = {}
             for k, (parent, typ, a, d) in enumerate(tr):
                 sid = f"{tid}_s{k}"
+                u = case.get("tunit", 10**6)
                 spans[sid] = dict(
-                    type=typ, start=BASE + a * 10**6, end=BASE + (a + d) * 10**6,
+                    type=typ, start=BASE + a * u, end=BASE + (a + d) * u,
                     parent=None if parent is None else f"{tid}_s{parent}",
                     app=wf["app"], job_id=tid, job_name=wf["name"])
             out.setdefault(wf["name"], {})[tid] = spans
@@ -100,7 +101,7 @@ def write_inputs(case, tmp):
         "data_holders": {"sql": {"db_uri": case.get("db_uri",
                                                     "sqlite:///:memory:"),
                                  "batch_size": case.get("batch", 1000),
-                                 "time_buffer": 0}},
+                                 "time_buffer": case.get("time_buffer", 0)}},
         "data_sources": {"json": {"dirpath": data, "filepath": None,
                                   "json_per_line": False,
                                   "field_mapping": fm}},
@@ -305,6 +306,8 @@ def classify(case):
             if any(v >= 2 for v in succ.values()):
                 fork = True
     cl = [f"workflows={len(wfs)}", "async" if case.get("async") else "sync",
+          *(["empty_application_name"] if any(
+              w["app"] == "" for w in case["workflows"]) else []),
           "custom_mapping" if case.get("mapping") else "default_mapping",
           f"files={case.get('files', 1)}"]
     if fork:
@@ -347,7 +350,7 @@ def strategy():
                     tr[k][1] = tr[k][1] + "x"
             traces.append(tr)
         return {"name": name, "app": draw(st.sampled_from(
-            ["app", "svc-a", "B"])), "traces": traces}
+            ["app", "svc-a", "B", ""])), "traces": traces}
 
     @st.composite
     def build(draw):
